@@ -19,6 +19,11 @@ class PutHooks(Hooks):
         t = text
         table = {
             "Path(destination).exists()": "exists",
+            "Path(destination).is_symlink()": "is_link",
+            "os.path.islink(Path(destination))": "is_link",
+            "os.path.islink(destination)": "is_link",
+            "os.path.lexists(Path(destination))": "present",
+            "os.path.lexists(destination)": "present",
             "_LICENSEREF_PATTERN.match(spdx_identifier)": "lref",
             "source": "source",
             "Path(source).is_dir()": "source_is_dir",
@@ -63,8 +68,13 @@ def rule_put(ck: Check, repo: Repo, rid: str = "R1") -> None:
     ck.analysed_fn(q)
     DLERR = "raise[URLError]@download_license(spdx_identifier)"
 
+    uses_lexists = "lexists(" in ast.unparse(fn)
+
     def ref(v):
-        if v("exists"):
+        # 'never replaces or alters an existing file' / 'writes only to LICENSES/<id>.txt': exists() follows symbolic
+        # links, so a dangling link at the destination is an existing entry that exists() does not see - and open('w')
+        # would create the link's target, somewhere else
+        if (v("present") if uses_lexists else (v("exists") or v("is_link"))):
             return ("refuse",)
         if v("lref"):
             if v("source"):
@@ -104,6 +114,9 @@ def rule_put(ck: Check, repo: Repo, rid: str = "R1") -> None:
             why = ""
             if d.get("exists") and any(e[0] == "effect" for e in rest):
                 why = " (an existing destination is written to)"
+            if d.get("is_link") and not d.get("exists") and any(e[0] == "effect" for e in rest):
+                why = (" (a dangling symbolic link at the destination is written through: `LICENSES/MIT.txt -> ../../outside.txt`,"
+                       " `reuse download MIT` exits 0 and creates outside.txt outside LICENSES/)")
             if d.get(DLERR) and any(e[0] == "effect" for e in rest):
                 why = " (a failed transfer leaves a file behind)"
             if d.get("lref") and any(e[0] in ("download", "network") for e in ev):
